@@ -724,6 +724,11 @@ REQUIRED = {
     ("c", "Message"): {"pascal", ("pascal",)},  # Zoo_Monkey -> ZooMonkey
     ("py", "Message"): {"keep", ("keep",)},  # Zoo_Monkey
     ("go", "MessageField"): {"pascal", ("pascal",)},  # exported struct fields
+    # members of an enum nested in messages are named <EnclosingMessages>_<MEMBER>; the PascalCase
+    # message names have to become UPPER_SNAKE words (as in BYTES_LENGTH_<UPPER_SNAKE_NAME>)
+    ("c", "EnumField"): {("snake", "upper")},
+    ("go", "EnumField"): {("snake", "upper")},
+    ("py", "EnumField"): {("snake", "upper")},
 }
 FORMATTERS = {"c": ("impls/c/formatter.py", "CFormatter"), "go": ("impls/go/formatter.py", "GoFormatter"), "py": ("impls/py/formatter.py", "PyFormatter")}
 
